@@ -583,6 +583,74 @@ pub fn run(args: &Args) -> i32 {
     }
     ctx.stats.merge(s);
 
+    // a sink that fails ONE call while protected entries are written and closed, and a caller who calls finish() again:
+    // whenever a finish() then reports success, every protected entry whose calls had succeeded reads back exactly with its
+    // password (nothing is encrypted twice, nothing is lost from the buffered cipher text)
+    {
+        use crate::sio::inst::{plan, Dev};
+        let s = par_for((methods.len() * 2 * 2) as u64, 1, |t, st| {
+            let m = methods[t as usize % methods.len()];
+            let class = 2 + (t as usize / methods.len()) % 2;
+            let two = t as usize / (methods.len() * 2) == 1;
+            let pw = b"retry".to_vec();
+            let (c1, c2) = (content_class(class, seed), content_class(5 - class, seed));
+            let mut calls = vec![Call::StartFile { name: "f".into(), opts: FOpts { password: Some(pw.clone()), ..FOpts::m(m) } }, Call::Write(c1.clone())];
+            if two {
+                calls.extend([Call::StartFile { name: "g".into(), opts: FOpts { password: Some(pw.clone()), ..FOpts::m(0) } }, Call::Write(c2.clone())]);
+            }
+            calls.extend([Call::Finish, Call::Finish]);
+            let p0 = plan();
+            let _ = exec_plan(&calls, &[], p0.clone());
+            let total = p0.borrow().kinds.len() as u64;
+            for k in 0..total {
+                for dev in [Dev::Err, Dev::Interrupted] {
+                    st.evals += 1;
+                    let pk = plan();
+                    pk.borrow_mut().record_kinds = false;
+                    pk.borrow_mut().devs.insert(k, dev.clone());
+                    let (res, bytes) = exec_plan(&calls, &[], pk);
+                    let what = format!("sink-fault+retry:m{m}/class{class}/{}: sink call {k} of {total} answered {dev:?} once, finish() called twice", if two { "two entries" } else { "one entry" });
+                    if let Some((c, r)) = calls.iter().zip(&res).find(|(_, r)| r.is_panic()) {
+                        st.viol(format!("panic/{}/{}", c.opname(), panic_site(&r.show())), format!("{what}: {} panicked: {}", c.opname(), r.show()), json!({"kind": "sink-fault+retry", "calls": calls_json(&calls), "sink_call": k}), (5 << 50) + t);
+                        continue;
+                    }
+                    let finished = calls.iter().zip(&res).any(|(c, r)| matches!(c, Call::Finish) && r.is_ok());
+                    if !finished {
+                        st.class("sink-fault+retry:no-finish-succeeded");
+                        continue;
+                    }
+                    st.distinct_hash(fnv(&bytes));
+                    let listed = observe(&bytes, Some(&pw), 1 << 22);
+                    for (name, content, ci) in [("f", &c1, 0usize), ("g", &c2, 2)] {
+                        if name == "g" && !two {
+                            continue;
+                        }
+                        if !(res[ci].is_ok() && res[ci + 1].is_ok()) {
+                            continue;
+                        }
+                        let b3 = bytes.clone();
+                        let (pw2, content2) = (pw.clone(), content.clone());
+                        match &listed {
+                            Ok(o) => match o.entries.iter().position(|e| e.name == name) {
+                                Some(idx) => {
+                                    let case = move || json!({"archive": hex(&b3), "idx": idx, "password": hex(&pw2), "content": hex(&content2), "name": name});
+                                    match attempt(&bytes, idx, Some(&pw), 4096, None) {
+                                        Attempt::Clean(c) if c == **content => st.class("sink-fault+retry:entry-exact"),
+                                        other => st.viol("right-password-fails/after-sink-fault-and-second-finish", format!("{what}: finish() reported success; entry {name} read with its password gives {}", short(&other)), case(), (5 << 50) + t),
+                                    }
+                                }
+                                None => st.viol("entry-lost/after-sink-fault-and-second-finish", format!("{what}: finish() reported success; entry {name}, whose calls all succeeded, is not listed"), json!({"archive": hex(&b3), "idx": 0, "password": hex(&pw2), "content": hex(&content2), "name": name}), (5 << 50) + t),
+                            },
+                            Err(e) => st.viol("archive-unreadable/after-sink-fault-and-second-finish", format!("{what}: finish() reported success; the archive does not open: {e:?}"), json!({"archive": hex(&b3), "idx": 0, "password": hex(&pw2), "content": hex(&content2), "name": name}), (5 << 50) + t),
+                        }
+                    }
+                }
+            }
+        });
+        ctx.stats.merge(s);
+        ctx.bound("sink_fault_then_second_finish", json!("{4 methods} x {2 contents} x {one, two protected entries}; one Err or one Interrupted at every sink call index; finish() called twice"));
+    }
+
     ctx.stats.states = ctx.stats.distinct.len() as u64;
     ctx.stats.transitions = ctx.stats.evals;
     ctx.stats.traces = ctx.stats.evals;
